@@ -126,7 +126,7 @@ def run(ck: Checker):
     ck.need(na >= 1, f'{f.key}: no append to the batch')
     # ---------------------------------------------------------------- C09-2 / C09-4
     check_size_bound(ck, 'C09-2', f, 'self.batch_size')
-    check_deadline_shape(ck, 'C09-4', f, queue=BUF, wait_attr='self.batch_wait_time')
+    check_deadline_shape(ck, 'C09-4', f, queue=BUF, wait_attr='self.batch_wait_time', size_attr='self.batch_size')
     check_wait_config(ck, 'C09-4', ck.repo.func(WORKER, 'Worker.__init__'), param='batch_wait_time', attr='self.batch_wait_time')
     # ---------------------------------------------------------------- C09-3
     check_one_destination(ck, 'C09-3')
@@ -162,11 +162,51 @@ def fill_loop(cfg: CFG, sc: Scope, size_attr: str):
     return None
 
 
+def check_size_relation(ck: Checker, rid: str, f: FuncInfo, size_attr: str):
+    """the size bound decided by relational abstract interpretation (rules/sizebound.py), whatever the loop form"""
+    from . import sizebound
+
+    sc = Scope(f)
+    cfg = build_cfg(f, ck.repo, None)
+    # the batch: a name created from a list literal, appended to, and handed over (yield / return)
+    created = {n.ast.targets[0].id for n in cfg.nodes if isinstance(n.ast, ast.Assign) and len(n.ast.targets) == 1 and isinstance(n.ast.targets[0], ast.Name) and isinstance(n.ast.value, ast.List)}
+    appended = {method_of(c)[0].id for n in cfg.nodes if header_expr(n) is not None for c in calls_in(header_expr(n)) if method_of(c)[1] == 'append' and isinstance(method_of(c)[0], ast.Name)}
+    handed = set()
+    for n in cfg.nodes:
+        v = n.ast.value.value if isinstance(n.ast, ast.Expr) and isinstance(n.ast.value, ast.Yield) else (n.ast.value if isinstance(n.ast, ast.Return) else None)
+        if isinstance(v, ast.Name):
+            handed.add(v.id)
+    cands = sorted(created & appended & handed)
+    ck.need(len(cands) == 1, f'{f.key}: the batch under construction is not identified (created ∩ appended ∩ handed over = {cands})')
+    lst = cands[0]
+    # a counter: a name that is `+= 1`-ed and compared with the size
+    incs = {n.ast.target.id for n in cfg.nodes if isinstance(n.ast, ast.AugAssign) and isinstance(n.ast.target, ast.Name) and isinstance(n.ast.op, ast.Add)}
+    size_names = {size_attr} | {n.ast.targets[0].id for n in cfg.nodes if isinstance(n.ast, ast.Assign) and len(n.ast.targets) == 1 and isinstance(n.ast.targets[0], ast.Name) and sc.canon(n.ast.value) == size_attr}
+    compared = set()
+    for n in cfg.nodes:
+        if n.kind == 'test' and isinstance(n.ast, ast.expr):
+            for c in ast.walk(n.ast):
+                if isinstance(c, ast.Compare) and len(c.ops) == 1:
+                    for a_, b_ in ((c.left, c.comparators[0]), (c.comparators[0], c.left)):
+                        if isinstance(a_, ast.Name) and ((dotted(b_) or '') in size_names or sc.canon(b_) == size_attr):
+                            compared.add(a_.id)
+    cnt = sorted(incs & compared)
+    probs, facts = sizebound.analyse(cfg, sc, size_attr, lst, cnt[0] if cnt else None)
+    ck.analysed_func(f, cfg)
+    if probs:
+        for n, text in probs:
+            ck.ob(rid, f, n.ast if n.ast is not None else (n.lineno, 'size'), False, text)
+    else:
+        ck.ob(rid, f, (f.node.lineno, f'{f.name} size relation'), True, f'1 ≤ len({lst}) ≤ {size_attr} at every hand-over ({facts["hand_overs"]}) and before every append the path establishes len({lst}) < {size_attr}' + (f' (through the counter `{cnt[0]}`, kept in step with the list)' if cnt else '') + ' — relational abstract interpretation over {<, ==, >}')
+
+
 def check_size_bound(ck: Checker, rid: str, f: FuncInfo, size_attr: str):
+    check_size_relation(ck, rid, f, size_attr)
     sc = Scope(f)
     cfg = build_cfg(f, ck.repo, None)
     loop = fill_loop(cfg, sc, size_attr)
-    ck.need(loop is not None, f'{f.key}: no fill loop guarded by a comparison with `{size_attr}`')
+    if loop is None:
+        return  # another loop form: the relational analysis above is the decision
     probs = []
     t = loop.ast
     if not isinstance(t.ops[0], ast.Lt):
@@ -226,7 +266,7 @@ def check_size_bound(ck: Checker, rid: str, f: FuncInfo, size_attr: str):
     ck.ob(rid, f, loop.ast, not probs, '; '.join(sorted(set(probs))) if probs else f'batch starts as a 1-element list, each completed iteration appends exactly one item and counts it, guard is `{norm_text(t)}` against `{size_attr}`: 1 ≤ len(batch) ≤ batch_size')
 
 
-def check_deadline_shape(ck: Checker, rid: str, f: FuncInfo, *, queue: str, wait_attr: str):
+def check_deadline_shape(ck: Checker, rid: str, f: FuncInfo, *, queue: str, wait_attr: str, size_attr: str | None = None):
     sc = Scope(f)
 
     def extra(node, a):
@@ -239,13 +279,15 @@ def check_deadline_shape(ck: Checker, rid: str, f: FuncInfo, *, queue: str, wait
 
     cfg = build_cfg(f, ck.repo, make_fallible(sc, iters=set(), calls=set(), extra=extra), gen_throw=False)
     ck.analysed_func(f, cfg)
+    # the fill loop: the innermost loop around a *timed* get on the queue, whatever its test looks like
     loop = None
-    for n in cfg.nodes:
-        if n.kind == 'test' and n.extra.get('loop') and isinstance(n.ast, ast.Compare) and n.loops == () or (n.kind == 'test' and n.extra.get('loop') and isinstance(n.ast, ast.Compare)):
-            body = [k for k in cfg.nodes if n.id in k.loops]
-            if any(header_expr(k) is not None and any(method_of(c)[1] == 'get' and method_of(c)[0] is not None and sc.canon(method_of(c)[0]) == queue for c in calls_in(header_expr(k))) for k in body):
-                loop = n
-                break
+    def _gets(timed_only):
+        return [k for k in cfg.nodes if k.loops and header_expr(k) is not None and any(method_of(c)[1] in ('get', 'get_nowait') and method_of(c)[0] is not None and sc.canon(method_of(c)[0]) == queue and (has_timeout(c) or not timed_only) for c in calls_in(header_expr(k)))]
+
+    timed = _gets(True) or sorted(_gets(False), key=lambda k: -len(k.loops))
+    if timed:
+        sizes = {lid: sum(1 for k in cfg.nodes if lid in k.loops) for lid in timed[0].loops}
+        loop = cfg.nodes[min(sizes, key=sizes.get)]
     ck.need(loop is not None, f'{f.key}: no fill loop getting from `{queue}`')
     probs = []
     gets_in = []
@@ -342,7 +384,13 @@ def check_deadline_shape(ck: Checker, rid: str, f: FuncInfo, *, queue: str, wait
     # deadline alone is not a reason to stop, elements that are already queued still belong to this batch
     getn = {n.id for n, _ in gets_in}
     outside = {k.id for k in cfg.nodes if loop.id not in k.loops and k.id != loop.id}
-    pth = path_avoiding(cfg, [e for e in cfg.succ[loop.id] if e.kind == 'T'], outside, avoid=getn | {loop.id})
+    # the size guard may also sit inside the loop (`if n >= batchsize: break`): leaving through a comparison with the
+    # batch size is the size guard, wherever it is written
+    size_names = set()
+    if size_attr:
+        size_names = {size_attr} | {k.ast.targets[0].id for k in cfg.nodes if isinstance(k.ast, ast.Assign) and len(k.ast.targets) == 1 and isinstance(k.ast.targets[0], ast.Name) and sc.canon(k.ast.value) == size_attr}
+    size_tests = {k.id for k in cfg.nodes if k.kind == 'test' and isinstance(k.ast, ast.expr) and any(isinstance(c_, ast.Compare) and any((dotted(x_) or '') in size_names or (size_attr and sc.canon(x_) == size_attr) for x_ in [c_.left] + c_.comparators) for c_ in ast.walk(k.ast))}
+    pth = path_avoiding(cfg, [e for e in cfg.succ[loop.id] if e.kind == 'T'], outside, avoid=getn | {loop.id} | size_tests)
     if pth is not None and getn:
         probs.append(f'the fill loop can be left (L{cfg.nodes[pth[-2]].lineno if len(pth) > 1 else loop.lineno}) without asking the queue in that iteration: a short batch is released although further elements may already be queued (e.g. when the wait is 0 or the deadline has just passed during a burst)')
     # nothing blocking between loop exit and return
